@@ -145,6 +145,9 @@ def body_gradients(case, ctx):
             ctx.inconclusive["stencil-not-converged"] += 1
             continue
         tol = max(tol, 1e-13 * sB)
+        if kinds[i] != "log":
+            # (x - c)/w carries eps*|x| of rounding, which the stencil divides by its step
+            tol += 64 * EPS * float(np.max(np.abs(X[:, cp_axis[i]]))) / h * max(float(np.max(np.abs(grads[i]))), 1e-300)
         worst = max(worst, err / tol)
         if not np.isfinite(err) or err > tol:
             role = kinds[i]
